@@ -823,7 +823,10 @@ pub fn check_type(
                 for e in ao.objs() {
                     chks.push((Rc::clone(e), Rc::clone(elem)))
                 }
-                state.push_checks(chks);
+                result = check_predicate(&o, c.pred());
+                if result.is_none() {
+                    state.push_checks(chks);
+                }
             },
             (PDFObjT::Array(ao), PDFType::HetArray { elems }, _) => {
                 if ao.objs().len() != elems.len() {
@@ -840,7 +843,10 @@ pub fn check_type(
                     let e = &ao.objs()[i];
                     chks.push((Rc::clone(e), Rc::clone(tc)))
                 }
-                state.push_checks(chks);
+                result = check_predicate(&o, c.pred());
+                if result.is_none() {
+                    state.push_checks(chks);
+                }
             },
             (PDFObjT::Dict(dict), PDFType::Dict(ents, star), _) => {
                 let mut chks = Vec::new();
@@ -906,6 +912,9 @@ pub fn check_type(
                     }
                 }
                 if result.is_none() {
+                    result = check_predicate(&o, c.pred());
+                }
+                if result.is_none() {
                     state.push_checks(chks)
                 }
             },
@@ -932,6 +941,9 @@ pub fn check_type(
                         (Some(_), _, PDFType::Any) if chk.is_unconstrained() => continue,
                         (Some(v), _, _) => chks.push((Rc::clone(v), Rc::clone(&ent.chk))),
                     }
+                }
+                if result.is_none() {
+                    result = check_predicate(&o, c.pred());
                 }
                 if result.is_none() {
                     state.push_checks(chks)
